@@ -729,6 +729,9 @@ def _worker(items) -> dict:
     out["twins"] = 0
     out["by_kind"], out["unsupported"] = {}, {}
     for seed, path, spans, tables, kinds in items:
+        every_variant = bool(kinds) and kinds[0] == "*"
+        if every_variant:
+            kinds = kinds[1:]
         prev = None
         names = Names()
         with open(path, "rb") as f:
@@ -743,7 +746,11 @@ def _worker(items) -> dict:
                     names.dstyle = (int(stable_hash([case["shape"], case["ovs"]]), 16) + seed) % 3
                     if kinds is not None:
                         from .kinds import BY_NAME
+                        from .kinds import VARIANT_KINDS
+                        hv = int(stable_hash([case["shape"], case["ovs"]]), 16) + seed
                         for kn in kinds:
+                            if not every_variant and any(v.name == kn and i % 3 != hv % 3 for i, v in enumerate(VARIANT_KINDS)):
+                                continue          # a variant spelling: met by one program in three
                             why = BY_NAME[kn].supports(case["shape"], case["sch"])
                             if case["sch"]["extra_in"]["p"] == "kwargs":
                                 why = "ExtraKwargs needs a constructor with **kwargs"
